@@ -72,6 +72,8 @@ W = [
     dict(id='parse-as-needs-space', commit='738d329', props=['C04', 'C20'], query='* | json | parse "*" from s asx', input=J({'s': 'q'}), rejected=True),
     dict(id='keyword-prefix-names', commit='dd26194', props=['C20', 'C04', 'C05'], query='* | json | sum_total + 1 as r | where true_x == 1 and nullable == 2 | fields r, sorted',
          input=J({'sum_total': 1, 'true_x': 1, 'nullable': 2, 'sorted': 5}), json_lines=[{'r': 2, 'sorted': 5}]),
+    dict(id='regex-size-limit', commit='81166bb', props=['C04', 'C11'], query='* | parse "' + '* x ' * 5000 + '" as ' + ','.join('f%d' % i for i in range(5000)),
+         input='a x b x\n', rejected=True, max_s=60),
 ]
 
 
